@@ -929,19 +929,27 @@ func (c *fnCtx) block(stmts []ast.Stmt, k string) string {
 		}
 		a, _ := strconv.Atoi(lo)
 		b, _ := strconv.Atoi(hi)
-		if b-a > 64 {
-			fail(s, "loop too long to unroll")
+		if b < a {
+			b = a
 		}
-		var unrolled []ast.Stmt
-		for i := a; i < b; i++ {
-			unrolled = append(unrolled, &unrolledIter{ForStmt: x, iv: iv, val: i})
+		// the loop becomes a fold over the state = variables assigned in the body
+		vars := assignedVars(x.Body.List)
+		if len(vars) == 0 {
+			return rest()
 		}
-		return c.block(append(unrolled, stmts[1:]...), k)
-	case *unrolledIter:
-		body := c.block(x.ForStmt.Body.List, "\x00CONT")
+		for _, v := range vars {
+			if v == iv {
+				fail(s, "loop variable assigned in the body")
+			}
+		}
+		tail := c.ret(tuple(vars))
+		body := c.block(x.Body.List, tail)
 		contT := rest()
-		body = strings.ReplaceAll(body, "\x00CONT", contT)
-		return fmt.Sprintf("let %s := %d in\n  %s", x.iv, x.val, body)
+		pat := pattern(vars)
+		if c.monadic {
+			return fmt.Sprintf("%s <- for_loopM %d%%nat %d (fun %s %s =>\n  %s) %s ;;\n  %s", pat, b-a, a, iv, pat, body, tuple(vars), contT)
+		}
+		return fmt.Sprintf("let %s := for_loop %d%%nat %d (fun %s %s =>\n  %s) %s in\n  %s", pat, b-a, a, iv, pat, body, tuple(vars), contT)
 	case *ast.SwitchStmt:
 		if x.Init != nil || x.Tag == nil {
 			fail(s, "unsupported switch")
@@ -997,12 +1005,6 @@ func (c *fnCtx) block(stmts []ast.Stmt, k string) string {
 	}
 	fail(s, "unsupported statement %T", s)
 	return ""
-}
-
-type unrolledIter struct {
-	*ast.ForStmt
-	iv  string
-	val int
 }
 
 func errClass(e ast.Expr) string {
